@@ -2,6 +2,7 @@ import Driver.Util
 import Driver.PyJson
 import Driver.C05
 import Torf.Model.ReadStream
+import Torf.Model.WriteInfo
 import Torf.Spec.Span
 open Lean Torf Torf.Bencode Torf.Codec Torf.ReadStream
 namespace Driver.C06
@@ -116,12 +117,57 @@ def historyOp (j : Json) : Except String Json := do
     | _ => throw "metainfo must be a dict"
   return jobj [("stages", jarr out)]
 
+/-- op `c06.write` : {m, vok, validate, worlds : [{ov, kind : absent | file | other | dir, node : hex (file), existsAns, openErr?, quota?, closeErr?}]}
+    ↦ per world: the outcome of `Torrent.write()` in the model (`WriteInfo.writeFile`: C17's effect model fed
+    with this property's `dump`) and what is at the path afterwards.  Theorems `C06_write_exact_or_error`,
+    `C06_write_short_is_error`, `C06_written_file`. -/
+def writeOp (j : Json) : Except String Json := do
+  let m ← getPy j "m"
+  let vok ← getBool j "vok"
+  let validate ← getBool j "validate"
+  let env : Env := { fromTs := fun _ => none, validate := fun _ => vok }
+  let worlds ← getArr j "worlds"
+  match m with
+  | .dict md =>
+    let d := dump env md validate
+    let outs ← worlds.mapM fun w => do
+      let ov ← getBool w "ov"
+      let node : Write.Node ← match (w.getObjValAs? String "kind").toOption with
+        | some "file" => do pure (.file (← getHex w "node"))
+        | some "other" => pure .other
+        | some "dir" => pure .dir
+        | _ => pure .absent
+      let wenv : Write.Env := {
+        existsAns := (← getBool w "existsAns"),
+        openErr := (w.getObjValAs? Bool "openErr").toOption.getD false,
+        quota := (w.getObjValAs? Nat "quota").toOption,
+        closeErr := (w.getObjValAs? Bool "closeErr").toOption.getD false }
+      let (r, t', _) := WriteInfo.writeFile env md validate ov { node := node, env := wenv }
+      let res : Json := match r with
+        | .ok () => jobj [("ok", Json.null)]
+        | .error .metainfo => jobj [("err", jstr "metainfo")]
+        | .error .write => jobj [("err", jstr "write")]
+        | .error .value => jobj [("err", jstr "value")]
+        | .error (.internal s) => jobj [("err", jstr ("internal:" ++ s))]
+      let after : Json := match t'.node with
+        | .file b => jhex b
+        | _ => Json.null
+      -- the specification (C06_write_exact_or_error): a normal return ⇒ the file is exactly the dump
+      let specOk : Bool := match r, d, t'.node with
+        | .ok (), .ok bs, .file b => b == bs
+        | .ok (), _, _ => false
+        | .error _, _, _ => true
+      pure (jobj [("result", res), ("after", after), ("specOk", jbool specOk)])
+    return jobj [("worlds", jarr outs), ("hyp", jbool (wf m))]
+  | _ => throw "metainfo must be a dict"
+
 def handle (op : String) (j : Json) : Except String Json :=
   match op with
   | "c06.export" => exportOp j
   | "c06.hash" => hashOp j
   | "c06.b32" => b32Op j
   | "c06.history" => historyOp j
+  | "c06.write" => writeOp j
   | _ => throw s!"unknown op {op}"
 
 end Driver.C06
